@@ -387,6 +387,9 @@ func (p *Pkg) observeStruct(m *Model, sv reflect.Value, prefix Path) {
 			if fv.IsNil() {
 				continue
 			}
+			if fv.Len() == 0 {
+				m.Extra = append(m.Extra, "empty-map "+prefix.Names(alts[0]...).String())
+			}
 			keyNames := p.ListKeyNames(f.Type.Elem())
 			keys := fv.MapKeys()
 			type ent struct {
@@ -417,6 +420,9 @@ func (p *Pkg) observeStruct(m *Model, sv reflect.Value, prefix Path) {
 			}
 			keysV := fv.MethodByName("Keys").Call(nil)[0]
 			valsV := fv.MethodByName("Values").Call(nil)[0]
+			if keysV.Len() == 0 {
+				m.Extra = append(m.Extra, "empty-orderedmap "+prefix.Names(alts[0]...).String())
+			}
 			et := valsV.Type().Elem()
 			keyNames := p.ListKeyNames(et)
 			lp := prefix.Names(alts[0]...)
